@@ -108,25 +108,35 @@ class Session(object):
         res['callees'] = sorted(v.callees)
         res['nreq'] = v.nreq
         obs = ctx.obligations
+        # vacuity canaries: "false" at function entry (requires satisfiable) and at each return must NOT be provable
+        canaries = []
+        from .exec import Obligation
+        cn = Obligation(short_fn(full) + '/canary.requires', 'canary', TRUE, FALSE, 0, v.entry_nassert)
+        cn.trivial = False
+        canaries.append(cn)
+        for i, (pc, line) in enumerate(v.returns):
+            cn = Obligation(short_fn(full) + '/canary.return#%d' % i, 'canary', pc, FALSE, line or 0, len(ctx.asserts))
+            cn.trivial = False
+            canaries.append(cn)
 
         def work(ob):
-            r = solve.check(ctx, ob, timeout, self.workdir)
+            if ob.kind == 'canary':
+                r = solve.check(ctx, ob, 2, self.workdir, order=('z3new',))
+            else:
+                r = solve.check(ctx, ob, timeout, self.workdir)
             return ob, r
         with ThreadPoolExecutor(max_workers=jobs) as pool:
-            for ob, r in pool.map(work, obs):
+            for ob, r in pool.map(work, obs + canaries):
                 ob.result = r
+                if ob.kind == 'canary':
+                    continue
                 res['obligations'].append({'name': ob.name, 'kind': ob.kind, 'line': ob.line, 'status': r['status'], 'solver': r['solver'],
                                            'time': round(r['time'], 3), 'clause': ob.info.get('clause'), 'props': sorted(ob.props) if ob.props else None})
-        # vacuity: requires satisfiable, some return reachable
         vac = {}
-        vac['requires_sat'] = solve.check_sat(ctx, TRUE, v.entry_nassert, timeout, self.workdir)
-        reach = 'unsat'
-        for pc, line in v.returns:
-            r = solve.check_sat(ctx, pc, len(ctx.asserts), timeout, self.workdir)
-            if r != 'unsat':
-                reach = r
-                break
-        vac['return_reachable'] = reach if v.returns else 'no-return'
+        vac['requires_sat'] = 'unsat' if canaries[0].result['status'] == 'unsat' else 'ok'
+        rets = [c_.result['status'] for c_ in canaries[1:]]
+        vac['return_reachable'] = 'no-return' if not rets else ('unsat' if all(x == 'unsat' for x in rets) else 'ok')
+        vac['dead_returns'] = sum(1 for x in rets if x == 'unsat')
         res['vacuity'] = vac
         res['ctx'] = ctx
         res['verifier'] = v
@@ -151,7 +161,7 @@ def main(argv=None):
             print('UNBOUND contracts:', ses.unbound)
         funcs = []
         for f in (a.func or []):
-            cands = [x for x in ses.prog.funcs if x == f or short_fn(x) == f or x.endswith('.' + f) or x.endswith(')' + '.' + f)]
+            cands = [x for x in ses.prog.funcs if x == f or short_fn(x) == f or short_fn(x).split('.', 1)[-1] == f]
             funcs += cands
         if not funcs:
             funcs = ses.claimed_functions()
